@@ -3,6 +3,7 @@ import os, importlib.util
 
 ID = "C12"
 PROPS = "Props/C12.v"
+GEN = ["sm4tables", "sm4consts"]
 LEGS = [{"driver": "c12", "runner": ("sm4gcm", "Extract/ExtractSM4GCM.v", "Sm4gcm_model")}]
 
 TECHNIQUE = ("Coq proof that a function-by-function model of sm4_gcm.go equals a transcription of NIST SP 800-38D (GF(2^128) multiplication, GHASH, "
@@ -28,6 +29,7 @@ LEVEL_NOTE = ("Trusted: Coq kernel incl. vm_compute, extraction (ExtrOcamlBasic 
               "append and proved not to touch any array of the caller (C12_caller_memory_untouched); index assignments and copies, whose "
               "destinations are all made inside the functions, are modelled on values; the run checks canaries behind K, IV, A, P, C.")
 TRUSTED_BASE = [
+    "translator harness/cmd/gen target sm4consts (integer literals of every function of sm4.go / sm4_gcm.go, package-level variables) -> coq/Gen/SM4Consts.v; sm4tables via the SM4 instantiation",
     "specification coq/SM4/GCMSpec.v transcribed by hand from NIST SP 800-38D; validated by RFC 8998 A.1 (SM4-GCM) as an Example",
     "model coq/SM4/GCMModel.v written by hand from sm4/sm4_gcm.go; tied by the correspondence run of this check",
     "block cipher abstract in the theorems; instantiated by SM4Spec in the runner; C05 ties sm4.go's cipher.Block to SM4Spec",
